@@ -15,8 +15,11 @@ pub fn write(pdb: &PDB) -> Vec<u8> {
 /// a finite number of realistic magnitude with an arbitrary tail of digits; sometimes exactly on a half of the fifth decimal
 fn value(rng: &mut Rng, max: i64, allow_neg: bool) -> f64 {
     let neg = allow_neg && rng.chance(1, 3);
-    let v = match rng.below(8) {
+    let v = match rng.below(10) {
         0 => rng.range(0, max) as f64,
+        // just below / just above a whole number: rounds to the whole number at five decimals
+        8 => rng.range(1, max.max(2)) as f64 - rng.range(1, 4999) as f64 / 1e9,
+        9 => rng.range(0, max) as f64 + rng.range(1, 4999) as f64 / 1e9,
         1 => rng.range(0, max * 100_000) as f64 / 100_000.0 + 0.000005,
         2 => rng.range(0, max * 1000) as f64 / 1000.0,
         3 => rng.range(0, 100) as f64 / 10_000_000.0,
